@@ -1,4 +1,205 @@
-(* C10 - SPARQL Update.  Property theorems only; proofs are in Update/Proofs.v. *)
-From RV Require Import Update.Model.
-Theorem C10_stub : True. Proof. exact I. Qed.
-Print Assumptions C10_stub.
+(* C10 - SPARQL Update changes the dataset exactly as the Update semantics
+   prescribe.  Property theorems only; proofs are in Update/{Proofs,Ops,Seq}.v.
+
+   Reading guide.  [eval_op e k o s] is the model of the k-th operation of a
+   request run through front end [e_fe e] (Graph / ConjunctiveGraph / Dataset)
+   with the default-graph-union switch [e_union e]; [s] = quad set + known
+   graph names; the WHERE clause is the solution list inside [o].  [a] is any
+   list that is the same *set* of quads as the store content.  [dflt e] is the
+   default graph of the Graph Store the front end exposes, [scope e o] says
+   that the front end has named graphs or the operation needs none, [op_kf]
+   is the known-finding trigger (0 = none: F10a..F10g, see notes/C10.md),
+   [kinv] the store invariant "every graph holding a quad is known". *)
+From RV Require Import Update.Model Update.Proofs Update.Ops Update.Seq.
+Local Open Scope N_scope.
+
+(* The checker the correspondence run evaluates on rdflib's answers accepts the
+   model on every well-formed case outside the known-finding regions. *)
+Theorem C10_spec_ok_model : forall c, wf c -> kf c = 0 -> spec_ok c (model_obs c) = true.
+Proof. exact spec_ok_model. Qed.
+Print Assumptions C10_spec_ok_model.
+
+(* ... and what acceptance means: no failure, every quad's graph is known, and
+   the final quads are the section-3 result up to a renaming of terms >= 1000
+   (the fresh blank nodes). *)
+Theorem C10_spec_ok_reading : forall c q kn raised,
+  in_scope (c_env c) (c_ops c) = true -> spec_ok c (q, kn, raised) = true ->
+  raised = false
+  /\ (forall x, In x q -> snd x = 0 \/ In (snd x) kn)
+  /\ exists m, qseteq (ren_quads m q) (spec_from (c_env c) 0 (c_ops c) (c_quads c)).
+Proof. exact spec_ok_reading. Qed.
+Print Assumptions C10_spec_ok_reading.
+
+Theorem C10_iso_eqb_sound : forall a b, iso_eqb a b = true -> exists m, qseteq (ren_quads m a) b.
+Proof. exact iso_eqb_sound. Qed.
+Print Assumptions C10_iso_eqb_sound.
+
+Theorem C10_iso_eqb_complete_on_equal_sets : forall a b, qseteq a b -> iso_eqb a b = true.
+Proof. exact iso_eqb_seteq. Qed.
+Print Assumptions C10_iso_eqb_complete_on_equal_sets.
+
+(* One operation = its section-3 transformer. *)
+Theorem C10_step : forall e k o s a,
+  scope e o -> op_kf e k o = 0 -> op_wf o = true -> kinv s -> qseteq (quads s) a ->
+  exists s', eval_op e k o s = Ok s' /\ qseteq (quads s') (spec_op e k o a) /\ kinv s'.
+Proof. exact step_correct. Qed.
+Print Assumptions C10_step.
+
+Theorem C10_insert_data : forall e k s a, kinv s -> qseteq (quads s) a -> forall ts qs,
+  scope e (InsertData ts qs) -> op_kf e k (InsertData ts qs) = 0 ->
+  exists s', eval_op e k (InsertData ts qs) s = Ok s' /\ kinv s' /\
+    forall q, In q (quads s') <-> In q a \/ In q (data_quads (dflt e) ts qs).
+Proof. exact insert_data_reading. Qed.
+Print Assumptions C10_insert_data.
+
+Theorem C10_delete_data : forall e k s a, kinv s -> qseteq (quads s) a -> forall ts qs,
+  scope e (DeleteData ts qs) -> op_kf e k (DeleteData ts qs) = 0 ->
+  exists s', eval_op e k (DeleteData ts qs) s = Ok s' /\ kinv s' /\
+    forall q, In q (quads s') <-> In q a /\ ~ In q (data_quads (dflt e) ts qs).
+Proof. exact delete_data_reading. Qed.
+Print Assumptions C10_delete_data.
+
+Theorem C10_data_quads : forall d ts qs q,
+  In q (data_quads d ts qs) <->
+  (snd q = d /\ In (fst q) ts) \/ exists b, In b qs /\ snd q = fst b /\ In (fst q) (snd b).
+Proof. exact data_quads_In. Qed.
+Print Assumptions C10_data_quads.
+
+Theorem C10_delete_where : forall e k s a, kinv s -> qseteq (quads s) a -> forall tm om,
+  scope e (DeleteWhere tm om) -> op_kf e k (DeleteWhere tm om) = 0 -> no_bnode tm = true ->
+  exists s', eval_op e k (DeleteWhere tm om) s = Ok s' /\ kinv s' /\
+    forall q, In q (quads s') <-> In q a /\ ~ In q (s_all e false k (dflt e) (Some tm) om).
+Proof. exact delete_where_reading. Qed.
+Print Assumptions C10_delete_where.
+
+(* DELETE/INSERT..WHERE at full strength on the repaired code:
+   D' = (D \ U_mu del(mu)) U U_mu ins(mu); WITH names the graph of the template
+   triples outside GRAPH, USING does not; unbound variables, unbound graph
+   names and (insertions) illegal triples are skipped by [s_all]. *)
+Theorem C10_modify : forall e k s a, kinv s -> qseteq (quads s) a -> forall w ud un d i om,
+  scope e (Modify w ud un d i om) -> op_kf e k (Modify w ud un d i om) = 0 ->
+  op_wf (Modify w ud un d i om) = true ->
+  let dg := match w with Some c => c | None => dflt e end in
+  exists s', eval_op e k (Modify w ud un d i om) s = Ok s' /\ kinv s' /\
+    forall q, In q (quads s') <->
+      (In q a /\ ~ In q (s_all e false k dg d om)) \/ In q (s_all e true k dg i om).
+Proof. exact modify_reading. Qed.
+Print Assumptions C10_modify.
+
+(* The loop as it was before the fix of F5 (per solution: delete, then insert)
+   does not have the property: swapping ?s p ?o -> ?o p ?s on the 2-cycle
+   {(1 p 2), (2 p 1)} must leave the graph unchanged; the old loop loses a triple. *)
+Theorem C10_modify_prefix_refuted :
+  qseteqb (quads (evalModify_prefix 0 0 (Some swap_del) (Some swap_ins) swap_omega swap_init))
+          (spec_op swap_env 0 (Modify None false false (Some swap_del) (Some swap_ins) swap_omega)
+                   (quads swap_init)) = false
+  /\ qseteqb (spec_op swap_env 0 (Modify None false false (Some swap_del) (Some swap_ins) swap_omega)
+                      (quads swap_init)) (quads swap_init) = true.
+Proof. exact modify_prefix_refuted. Qed.
+Print Assumptions C10_modify_prefix_refuted.
+
+Theorem C10_clear : forall e k s a, kinv s -> qseteq (quads s) a -> forall sl g,
+  scope e (Clear sl g) -> op_kf e k (Clear sl g) = 0 ->
+  exists s', eval_op e k (Clear sl g) s = Ok s' /\ kinv s' /\
+    forall q, In q (quads s') <->
+      In q a /\ ~ match g with
+                  | GDefault => snd q = dflt e
+                  | GNamed => snd q <> dflt e
+                  | GAll => True
+                  | GIri c => snd q = c
+                  end.
+Proof. exact clear_reading. Qed.
+Print Assumptions C10_clear.
+
+Theorem C10_drop : forall e k s a, kinv s -> qseteq (quads s) a -> forall sl g,
+  scope e (Drop sl g) -> op_kf e k (Drop sl g) = 0 ->
+  exists s', eval_op e k (Drop sl g) s = Ok s' /\ kinv s' /\
+    forall q, In q (quads s') <->
+      In q a /\ ~ match g with
+                  | GDefault => snd q = dflt e
+                  | GNamed => snd q <> dflt e
+                  | GAll => True
+                  | GIri c => snd q = c
+                  end.
+Proof. exact drop_reading. Qed.
+Print Assumptions C10_drop.
+
+(* source = target is a no-op; a missing source is the empty graph *)
+Theorem C10_add : forall e k s a, kinv s -> qseteq (quads s) a -> forall sl x y,
+  scope e (Add sl x y) -> op_kf e k (Add sl x y) = 0 ->
+  exists s', eval_op e k (Add sl x y) s = Ok s' /\ kinv s' /\
+    forall q, In q (quads s') <->
+      In q a \/ (gd_cid e x <> gd_cid e y /\ snd q = gd_cid e y /\ In (fst q, gd_cid e x) a).
+Proof. exact add_reading. Qed.
+Print Assumptions C10_add.
+
+Theorem C10_copy : forall e k s a, kinv s -> qseteq (quads s) a -> forall sl x y,
+  scope e (Copy sl x y) -> op_kf e k (Copy sl x y) = 0 ->
+  exists s', eval_op e k (Copy sl x y) s = Ok s' /\ kinv s' /\
+    forall q, In q (quads s') <->
+      if N.eqb (gd_cid e x) (gd_cid e y) then In q a
+      else (In q a /\ snd q <> gd_cid e y) \/ (snd q = gd_cid e y /\ In (fst q, gd_cid e x) a).
+Proof. exact copy_reading. Qed.
+Print Assumptions C10_copy.
+
+Theorem C10_move : forall e k s a, kinv s -> qseteq (quads s) a -> forall sl x y,
+  scope e (Move sl x y) -> op_kf e k (Move sl x y) = 0 ->
+  exists s', eval_op e k (Move sl x y) s = Ok s' /\ kinv s' /\
+    forall q, In q (quads s') <->
+      if N.eqb (gd_cid e x) (gd_cid e y) then In q a
+      else snd q <> gd_cid e x /\
+           ((In q a /\ snd q <> gd_cid e y) \/ (snd q = gd_cid e y /\ In (fst q, gd_cid e x) a)).
+Proof. exact move_reading. Qed.
+Print Assumptions C10_move.
+
+(* Graphs the operation does not name stay equal (data and management
+   operations: [op_graphs] lists the graphs named). *)
+Theorem C10_untouched : forall e k o a c,
+  match o with Modify _ _ _ _ _ _ | DeleteWhere _ _ => False | _ => True end ->
+  ~ op_graphs e o c -> forall t, In (t, c) (spec_op e k o a) <-> In (t, c) a.
+Proof. exact spec_untouched_data. Qed.
+Print Assumptions C10_untouched.
+
+(* ... and for DELETE/INSERT..WHERE: a graph no instantiated template quad names. *)
+Theorem C10_untouched_modify : forall e k w ud un d i om a c,
+  let dg := match w with Some x => x | None => dflt e end in
+  ~ In c (map snd (s_all e false k dg d om)) -> ~ In c (map snd (s_all e true k dg i om)) ->
+  forall t, In (t, c) (spec_op e k (Modify w ud un d i om) a) <-> In (t, c) a.
+Proof. exact spec_untouched_modify. Qed.
+Print Assumptions C10_untouched_modify.
+
+(* Fresh blank nodes: the supply is injective in (operation, solution, block,
+   label), every name is >= 1000 and lies in the window of its operation, so
+   it differs from every term of a store whose terms are below that window
+   (pool terms are < 1000, earlier operations use earlier windows); the
+   specification names one node per (operation, solution, label). *)
+Theorem C10_fresh_bnodes_partial : forall k i j x k' i' j' x',
+  i < 256 -> j < 256 -> x < 256 -> i' < 256 -> j' < 256 -> x' < 256 ->
+  (fresh k i j x = fresh k' i' j' x' -> k = k' /\ i = i' /\ j = j' /\ x = x')
+  /\ FRESH + k * 16777216 <= fresh k i j x < FRESH + (k + 1) * 16777216.
+Proof.
+  intros. split; [apply fresh_inj; auto|apply fresh_window; auto].
+Qed.
+Print Assumptions C10_fresh_bnodes_partial.
+
+(* Operations of one request run in order: the request is the composition of
+   the transformers; nothing is skipped, nothing fails. *)
+Theorem C10_sequence : forall e ops k s a,
+  has_dataset e = true \/ forallb (fun o => negb (needs_dataset o)) ops = true ->
+  kf_from e k ops = 0 -> forallb op_wf ops = true -> kinv s -> qseteq (quads s) a ->
+  exists s', eval_from e k ops s = Ok s' /\ qseteq (quads s') (spec_from e k ops a) /\ kinv s'.
+Proof. exact sequence_correct. Qed.
+Print Assumptions C10_sequence.
+
+(* non-vacuity: the swap request on the 2-cycle through a Dataset with the
+   switch off is in scope, outside every trigger, and accepted *)
+Example C10_nonvacuous :
+  let c := {| c_env := swap_env; c_quads := quads swap_init; c_known := [0];
+              c_ops := [Modify None false false (Some swap_del) (Some swap_ins) swap_omega;
+                        Copy false DDefault (DIri 1); Clear false GDefault] |} in
+  wf c /\ kf c = 0 /\ in_scope (c_env c) (c_ops c) = true
+  /\ model_obs c = ([((2, 3, 1), 1); ((1, 3, 2), 1)], [1], false).
+Proof.
+  simpl. split; [split; [intros q [<-|[<-|[]]]; simpl; auto|reflexivity]|].
+  split; [vm_compute; reflexivity|split; vm_compute; reflexivity].
+Qed.
